@@ -58,11 +58,10 @@ def mk_template(kind: tuple, direction: StudyDirection, n_obj: int = 1) -> Froze
                        params={}, distributions={}, user_attrs={}, system_attrs=sysattrs, intermediate_values={})
 
 
-def build(env: Env, directions: list, hist: tuple, finish_order: tuple | None) -> tuple[Any, int]:
-    """Create the study and its trials. finish_order None: all templates; else COMPLETE trials are
-    created RUNNING (constraints set first) and finished in that order (indices into hist)."""
-    st = env.storage
-    sid = st.create_new_study(directions, "c12")
+def steps(st: Any, sid: int, directions: list, hist: tuple, finish_order: tuple | None) -> Any:
+    """Create the trials one storage write at a time, yielding after each one. finish_order None:
+    all templates; else COMPLETE trials are created RUNNING (constraints set first) and finished in
+    that order (indices into hist). The writes go straight to the storage, like another client."""
     ids = []
     for i, k in enumerate(hist):
         if finish_order is not None and k[0] == "C":
@@ -72,12 +71,13 @@ def build(env: Env, directions: list, hist: tuple, finish_order: tuple | None) -
         else:
             tid = st.create_new_trial(sid, mk_template(k, directions[0], len(directions)))
         ids.append(tid)
+        yield ("create", i)
     if finish_order is not None:
         for i in finish_order:
             k = hist[i]
             vals = list(k[1]) if isinstance(k[1], tuple) else [k[1]]
             st.set_trial_state_values(ids[i], TrialState.COMPLETE, vals)
-    return st, sid
+            yield ("finish", i)
 
 
 def better(a: float, b: float, d: StudyDirection) -> bool:
@@ -86,13 +86,26 @@ def better(a: float, b: float, d: StudyDirection) -> bool:
 
 def check_single(env: Env, direction: StudyDirection, hist: tuple, finish_order: tuple | None, part: Part,
                  config: str) -> None:
-    st, sid = build(env, [direction], hist, finish_order)
+    st = env.storage
+    sid = st.create_new_study([direction], "c12")
+    # ONE long-lived Study object (what a sampler, callback or dashboard holds) is asked after
+    # EVERY write made by "another client": stale per-thread caches must not leak into the answer
     study = optuna.load_study(study_name="c12", storage=st)
-    trials = study.get_trials(deepcopy=False)
+    all_steps = len(hist) + (len(finish_order) if finish_order else 0)
+    slow = config in ("rdb", "cached", "grpc(cached)")
+    for n, step in enumerate(steps(st, sid, [direction], hist, finish_order)):
+        if slow and n < all_steps - 2:
+            continue  # SQLite-backed (slow): the last two writes only
+        verify_single(study, st, sid, direction, hist, finish_order, part, config, step)
+
+
+def verify_single(study: Any, st: Any, sid: int, direction: StudyDirection, hist: tuple, finish_order: tuple | None,
+                  part: Part, config: str, step: tuple) -> None:
+    trials = st.get_all_trials(sid, deepcopy=False)
     comp = [t for t in trials if t.state == TrialState.COMPLETE]
     constrained = any("constraints" in t.system_attrs for t in comp)
     feas = [t for t in comp if not constrained or all(x <= 0 for x in t.system_attrs.get("constraints", [1]))]
-    rep = {"config": config, "direction": direction.name, "history": hist, "finish_order": finish_order}
+    rep = {"config": config, "direction": direction.name, "history": hist, "finish_order": finish_order, "after_step": step}
 
     def fail(clause: str, detail: Any) -> None:
         part.violation(f"{config}|single|{clause}", dict(rep, clause=clause, detail=detail))
@@ -168,14 +181,24 @@ def dominates(a: list, b: list, dirs: list) -> bool:
 
 
 def check_multi(env: Env, dirs: list, hist: tuple, finish_order: tuple | None, part: Part, config: str) -> None:
-    st, sid = build(env, dirs, hist, finish_order)
+    st = env.storage
+    sid = st.create_new_study(dirs, "c12")
     study = optuna.load_study(study_name="c12", storage=st)
-    trials = study.get_trials(deepcopy=False)
+    all_steps = len(hist) + (len(finish_order) if finish_order else 0)
+    for n, step in enumerate(steps(st, sid, dirs, hist, finish_order)):
+        if n < all_steps - 2:
+            continue
+        verify_multi(study, st, sid, dirs, hist, finish_order, part, config, step)
+
+
+def verify_multi(study: Any, st: Any, sid: int, dirs: list, hist: tuple, finish_order: tuple | None, part: Part,
+                 config: str, step: tuple) -> None:
+    trials = st.get_all_trials(sid, deepcopy=False)
     comp = [t for t in trials if t.state == TrialState.COMPLETE]
     constrained = any("constraints" in t.system_attrs for t in trials)
     pool = [t for t in comp if not constrained or ("constraints" in t.system_attrs and all(x <= 0 for x in t.system_attrs["constraints"]))]
     want = {t.number for t in pool if not any(dominates(u.values, t.values, dirs) for u in pool)}
-    rep = {"config": config, "directions": [d.name for d in dirs], "history": hist, "finish_order": finish_order}
+    rep = {"config": config, "directions": [d.name for d in dirs], "history": hist, "finish_order": finish_order, "after_step": step}
     try:
         got = [t.number for t in study.best_trials]
     except Exception as e:
